@@ -135,6 +135,9 @@ func tableCase(r *evid.Run, db walletdb.DB, rg *rand.Rand, idx int, cs int64) {
 	withPre, withPost := rg.Intn(3) == 0, rg.Intn(3) == 0
 	// failure position: -1 = none, else index into runnable — every position enumerated
 	for failPos := -1; failPos < len(runnable); failPos++ {
+		// a migration can also fail by panicking (the wallet runs upgrades inside
+		// walletdb.Update, whose contract is to roll back then)
+		panics := failPos >= 0 && rg.Intn(3) == 0
 		var calls, setCalls []uint32
 		failAt := uint32(0)
 		if failPos >= 0 {
@@ -153,6 +156,9 @@ func tableCase(r *evid.Run, db walletdb.DB, rg *rand.Rand, idx int, cs int64) {
 					return err
 				}
 				if n == failAt {
+					if panics {
+						panic("boom")
+					}
 					return errors.New("boom")
 				}
 				return nil
@@ -193,20 +199,30 @@ func tableCase(r *evid.Run, db walletdb.DB, rg *rand.Rand, idx int, cs int64) {
 			return out
 		}
 		before := dumpDB(db, bk)
-		err := walletdb.Update(db, func(tx walletdb.ReadWriteTx) error {
-			b := tx.ReadWriteBucket(bk)
-			var mgrs []migration.Manager
-			if withPre {
-				mgrs = append(mgrs, &recMgr{name: "pre", ns: b.NestedReadWriteBucket([]byte("pre")), versions: neighbour(&preCalls, 1, 2, 3), fresh: fresh, setCalls: &preSet})
-			}
-			mgrs = append(mgrs, &recMgr{name: "t", ns: b, versions: vs, fresh: fresh, setCalls: &setCalls})
-			if withPost {
-				mgrs = append(mgrs, &recMgr{name: "post", ns: b.NestedReadWriteBucket([]byte("post")), versions: neighbour(&postCalls, 1, 2), fresh: fresh, setCalls: &postSet})
-			}
-			return migration.Upgrade(mgrs...)
-		})
+		var err error
+		func() {
+			defer func() {
+				if p := recover(); p != nil {
+					err = fmt.Errorf("panic: %v", p)
+				}
+			}()
+			err = upgradeIn(db, bk, func(b walletdb.ReadWriteBucket) error {
+				var mgrs []migration.Manager
+				if withPre {
+					mgrs = append(mgrs, &recMgr{name: "pre", ns: b.NestedReadWriteBucket([]byte("pre")), versions: neighbour(&preCalls, 1, 2, 3), fresh: fresh, setCalls: &preSet})
+				}
+				mgrs = append(mgrs, &recMgr{name: "t", ns: b, versions: vs, fresh: fresh, setCalls: &setCalls})
+				if withPost {
+					mgrs = append(mgrs, &recMgr{name: "post", ns: b.NestedReadWriteBucket([]byte("post")), versions: neighbour(&postCalls, 1, 2), fresh: fresh, setCalls: &postSet})
+				}
+				return migration.Upgrade(mgrs...)
+			})
+		}()
 		after := dumpDB(db, bk)
-		desc := fmt.Sprintf("declared=%v nil=%v stored=%d latest=%d failAt=%d freshTablePerCall=%v upToDateServiceBefore=%v pendingServiceAfter=%v", nums, keys(nilNums), stored, latest, failAt, fresh, withPre, withPost)
+		if panics {
+			r.Hit("panicking-migrations", 1)
+		}
+		desc := fmt.Sprintf("declared=%v nil=%v stored=%d latest=%d failAt=%d panics=%v freshTablePerCall=%v upToDateServiceBefore=%v pendingServiceAfter=%v", nums, keys(nilNums), stored, latest, failAt, panics, fresh, withPre, withPost)
 		detail := map[string]any{"case": desc, "invoked": fmt.Sprint(calls), "set_version_calls": fmt.Sprint(setCalls), "error": fmt.Sprint(err)}
 		r.Hit("upgrade-runs", 1)
 		// oracle
@@ -297,6 +313,12 @@ func tableCase(r *evid.Run, db walletdb.DB, rg *rand.Rand, idx int, cs int64) {
 		}
 		walletdb.Update(db, func(tx walletdb.ReadWriteTx) error { return tx.DeleteTopLevelBucket(bk) })
 	}
+}
+
+func upgradeIn(db walletdb.DB, bk []byte, f func(b walletdb.ReadWriteBucket) error) error {
+	return walletdb.Update(db, func(tx walletdb.ReadWriteTx) error {
+		return f(tx.ReadWriteBucket(bk))
+	})
 }
 
 func keys(m map[uint32]bool) []int {
